@@ -16,6 +16,14 @@ CLAIMS = {
         "stays inside one (signal, colour, source) group. Decides these necessary conditions, not observational equivalence of the two builds.",
    technique="IR-schema exhaustiveness over isinstance ladders (ast), def-use slices, sibling-pipeline comparison",
    ref="DESIGN.md §2 C10"),
+ "C11": dict(
+   text="Static analysis, exhaustive over the finite table (folding site x DSL operator): folding sites are discovered by role (operator-dispatch "
+        "functions over two int operands; Python arithmetic on values tainted by literal/IRConst values), the return behaviour of each site per operator "
+        "is extracted by path enumeration into terms over the operands, normalised by idiom recognition (32-bit wrap, truncating division, C remainder) "
+        "and classified CONFORMS / DEVIATES(kind) / UNRECOGNISED against Factorio's table from the property text. No numbers are evaluated. "
+        "The arithmetic clause of the property is a statement about exactly this table; the 'replace a constant by an input' reading through the emitted circuit is not decided.",
+   technique="path-enumerating term extraction + idiom normalisation + table classification over ast; taint-based site discovery",
+   ref="DESIGN.md §2 C11"),
 }
 NA_DEFAULT = "check not built yet (build phase in progress); see DESIGN.md for the planned rules"
 NA = {}
